@@ -250,6 +250,11 @@ def check_via_xml(case):
         return out
     icvn = '00501' if '*00501*' in ops[0] else '00401'
     dl = {'term': d['term'], 'ele': d['ele'], 'sub': d['sub'], 'rep': d.get('rep') or '^'}
+    for s_ in segs:
+        # the converter chooses its repetition separator once (it shows in the first 00501 header, which need not be the first)
+        if s_.id == 'ISA' and len(s_.elems) > 11 and s_.elems[11] == ['00501']:
+            dl['rep'] = s_.elems[10][0]
+            break
     # (the converter does not renumber LX: it is the caller of the writer that asks for that)
     exp = [(sid, x12ref.trim([[_literal(c) for c in e] for e in els])) for sid, els in model(ops, dl, icvn, False)]
     got = [(s.id, s.trimmed()) for s in segs]
